@@ -124,7 +124,7 @@ _H = {
     'C04': 'Call sequences: digest, in-place edit of existing inputs/outputs (same object, same list lengths), digest again; then after an append.',
     'C05': 'Call sequences: two independently signed inputs of one transaction object verified alternately; two signature checks in one script.',
     'C10': 'Call sequences: a refused text is refused again, so is another text with the same character, and valid text still decodes afterwards; 27 fixed texts with line ends / blanks / look-alike digits are concrete runs.',
-    'C11': 'Call sequences: a mixed-case rendering of a just-decoded address is refused; one arbitrary code point (whole Unicode range) inside an otherwise valid upper- or lower-case address.',
+    'C11': 'Call sequences: a mixed-case rendering of a just-decoded address is refused; one arbitrary code point (whole Unicode range) inside an otherwise valid upper-case address.',
     'C12': 'Call sequences: the same script / the same text under two chains in one process (text parsed under its own chain first); mixed-case and one-non-ASCII-code-point renderings of a valid address are refused.',
     'C14': 'Call sequences: compressed- and uncompressed-key verifications in either order in one process (symbolic: compression flag seen by the recovery; concrete twin: real OpenSSL).',
     'C15': 'Call sequences: a block built from mutable transactions that the caller edits afterwards still describes block.vtx.',
